@@ -7,10 +7,10 @@ import "encoding/binary"
 // find item boundaries so that mutations can be structure-aware.
 
 type cborItem struct {
-	off     int   // offset of the head
-	headLen int   // number of head bytes
-	major   byte  // major type 0..7
-	info    byte  // additional information (low 5 bits)
+	off     int  // offset of the head
+	headLen int  // number of head bytes
+	major   byte // major type 0..7
+	info    byte // additional information (low 5 bits)
 	arg     uint64
 	end     int // end offset of the whole item (exclusive)
 	depth   int
